@@ -73,44 +73,6 @@ def fmt(a):
 ADVANCING = re.compile(r"self\.decoder\.(?!offset\(\)|limit_reached\(\)|has_limit\(\))\w+\(|self\.parse_\w+\(")
 
 
-def resolve_offset_local(f, arg_text, site_text):
-    """If arg_text names a local bound once by `let x = <offset expression>;` and no decoder-advancing call lies between the
-    binding and the site (in source order), return the initialiser's text; else arg_text."""
-    if not re.match(r"^\w+$", arg_text):
-        return arg_text
-    body = show(f["body"])
-    binds = re.findall(r"let %s = ([^;]*);" % re.escape(arg_text), body)
-    if len(binds) != 1:
-        return arg_text
-    i = body.find("let %s = " % arg_text)
-    j = body.find(site_text, i)
-    if i < 0 or j < 0:
-        return arg_text
-    between = body[i + len("let %s = %s;" % (arg_text, binds[0])):j]
-    if ADVANCING.search(between):
-        return arg_text + " (bound before a decoder read)"
-    return binds[0]
-
-
-def result_sites(f):
-    """every Err(State::V(..)) / Ok(..) result expression with its path conditions"""
-    def pred(n):
-        return n[0] == "call" and path_of(n[1]) in ("Err", "Ok") and len(n[2]) == 1
-    out = []
-    for n, conds in sites(f["body"], pred):
-        if path_of(n[1]) == "Err":
-            v = n[2][0]
-            if v[0] == "call":
-                out.append(("Err", (path_of(v[1]) or "?").split("::")[-1], v[2], conds))
-            elif v[0] == "path":
-                out.append(("Err", v[1].split("::")[-1], [], conds))
-            else:
-                out.append(("Err", "?" + show(v)[:30], [], conds))
-        else:
-            out.append(("Ok", show(n[2][0]), [], conds))
-    return out
-
-
 def run(ctx, chk):
     raw = ctx.raw
     mir = ctx.mir("rspirv")
@@ -296,23 +258,3 @@ def walk_stmts(b):
                 yield s
 
 
-def decision_table(chk, rule, fname, rs, atom_rules, want, where_, keyfn):
-    seen = {}
-    for kind, v, args, conds in rs:
-        key = (kind, keyfn(kind, v))
-        a = atoms(conds, atom_rules)
-        if key not in want:
-            chk.bad(rule, "%s:%s(%s)" % (fname, kind, v), "unexpected result %s(%s) under %s" % (kind, v, fmt(a)), where_,
-                    key="C03:%s:unexpected:%s" % (fname, key[1]))
-            continue
-        if key in seen:
-            chk.bad(rule, "%s:%s(%s)#2" % (fname, kind, v), "a second site yields %s(%s), under %s (the first under %s)" % (kind, v, fmt(a), fmt(seen[key])),
-                    where_, key="C03:%s:second:%s" % (fname, key[1]))
-            continue
-        seen[key] = a
-        chk.check(rule, a == want[key], "%s:%s(%s)" % (fname, kind, key[1]),
-                  "%s(%s) is produced under %s, expected %s" % (kind, key[1], fmt(a), fmt(want[key])), where_,
-                  key="C03:%s:cond:%s" % (fname, key[1]), sample=fmt(a))
-    for key in want:
-        if key not in seen:
-            chk.bad(rule, "%s:%s(%s):missing" % (fname, key[0], key[1]), "no site produces %s(%s)" % key, where_, key="C03:%s:missing:%s" % (fname, key[1]))
